@@ -272,11 +272,12 @@ Section Wp.
                         | QNot => Q QNot m'
                         | QErr e => Q (QErr e) m'
                         | QFuel => Q QFuel m'
+                        | QIO => Q QIO m'
                         end) ->
     wp (qbind p f) m Q.
   Proof.
     intros H. unfold qbind. apply wp_pbind. eapply wp_mono; [|exact H].
-    intros [a| |e|] m' Ha; exact Ha.
+    intros [a| |e| |] m' Ha; exact Ha.
   Qed.
 
   (* ---------------------------------------------------------------- the nine operations at a suffix *)
@@ -1655,10 +1656,11 @@ Proof.
   discriminate E.
 Qed.
 
-(* SetPosition beyond the end: the string reader throws std::invalid_argument, the stream reader's
-   void SetPosition drops the refusal of CBinaryStreamReader::SetPosition and returns normally *)
+(* SetPosition beyond the end: the string reader throws std::invalid_argument, the stream reader
+   SerializationException(InputOutputError) (since 24799d8; it returned normally before): both throw,
+   with different classes *)
 Lemma setpos_beyond_witness :
-  mps_run_bsr no_narrow id_widen 8 (stream_of [0xC0] true) 10 throw_all [RdSetPos 2] = Ok [AOkAt VUnit 0] /\
+  mps_run_bsr no_narrow id_widen 8 (stream_of [0xC0] true) 10 throw_all [RdSetPos 2] = Ok [AIOErr] /\
   str_run no_narrow id_widen [0xC0] throw_all [RdSetPos 2] = [AErrOf EInvalidArg].
 Proof. vm_compute. split; reflexivity. Qed.
 
@@ -1670,7 +1672,7 @@ Proof.
   intros H. destruct setpos_beyond_witness as [W1 W2].
   specialize (H 8%nat [0xC0] no_narrow id_widen 10%nat throw_all [RdSetPos 2]).
   rewrite W1, W2 in H.
-  assert (E : Ok [AOkAt VUnit 0] = Ok [AErrOf EInvalidArg]).
+  assert (E : Ok [AIOErr] = Ok [AErrOf EInvalidArg]).
   { apply H.
     - lia.
     - unfold fits_streamoff. cbn. lia.
@@ -1838,7 +1840,7 @@ Proof.
                  else CCall RdSkip (fun _ => find_members n key start)
                | _ => CRet None
                end) d' = true).
-    { intros a d'. destruct a as [v p|p|e|]; try reflexivity. destruct v; try reflexivity.
+    { intros a d'. destruct a as [v p|p|e| |]; try reflexivity. destruct v; try reflexivity.
       destruct (list_eqb l key).
       - cbn [client_seeks_ok rop_ok andb].
         assert (Fin : forall (r : option Z) d'', client_seeks_ok narrow widen data o (CCall (RdSetPos start) (fun _ => CRet r)) d'' = true).
@@ -1888,3 +1890,581 @@ Example find_by_key_run :
     Ok (str_client_run no_narrow id_widen find_doc throw_all (find_by_key 27 [0x6B])) /\
   snd (str_client_run no_narrow id_widen find_doc throw_all (find_by_key 27 [0x71])) = Some None.
 Proof. vm_compute. repeat split; reflexivity. Qed.
+
+(* ================================================================== streams without seek support *)
+
+(* On a stream whose streambuf cannot seek, CBinaryStreamReader::SetPosition(p) works only when p lies in
+   the cached window, is the stream position itself, or is beyond the data (op_local of StreamBsrProofs:
+   finding F16b).  The MsgPack stream reader calls SetPosition in SkipValueImpl (forward, checked: a
+   refusal becomes ParsingException), in ReadExtFamilyType (back to prevPos, result dropped), in
+   ReadValue(CBinTimestamp) (forward over the header, result dropped) and in its own SetPosition (result
+   dropped).  [prog_seek_free K data p s]: along the run of program p from reader state s, every
+   SetPosition issued is local. *)
+Fixpoint prog_seek_free {A} (K : nat) (data : list N) (p : prog A) (s : bsr) : bool :=
+  match p with
+  | Ret _ => true
+  | Bad => true
+  | Op op k =>
+    op_local data s op &&
+    match bsr_step K s op with
+    | Ok (r, s') => prog_seek_free K data (k r) s'
+    | Fault => true
+    end
+  end.
+
+Lemma interp_wp_nonseek K data : (0 < K)%nat -> fits_streamoff data ->
+  forall (A : Type) (p : prog A) s m Q, Rel K data s m -> prog_seek_free K data p s = true -> wp K data p m Q ->
+  exists a s' m', interp (bsr_step K) p s = Ok (a, s') /\ Q a m' /\ Rel K data s' m'.
+Proof.
+  intros HK Hl A. induction p as [a| |op k IH]; intros s m Q HR Hfree H; cbn [wp interp prog_seek_free] in *.
+  - exists a, s, m. auto.
+  - contradiction.
+  - destruct H as [Hw Hk]. apply andb_true_iff in Hfree. destruct Hfree as [Hloc Hrest].
+    destruct (step_refines K HK data Hl s m op HR Hw (fun _ => or_intror Hloc)) as [r [s' [m' [E1 [E2 [R' _]]]]]].
+    rewrite E1 in *. apply (IH r s' m' Q R' Hrest). apply Hk. exact E2.
+Qed.
+
+(* the class, for a list of reads and for an adaptive client: decided by running the stream-reader model
+   on the chunked reader model over the non-seekable stream *)
+Definition nonseek_ok (narrow : N -> option N) (widen : N -> N) (K : nat) (data : list N) (fuel : nat) (o : opts)
+  (ops : list rop) : bool :=
+  prog_seek_free K data (mps_seq narrow widen fuel o ops) (bsr_new K (stream_of data false)).
+
+Definition nonseek_client_ok (narrow : N -> option N) (widen : N -> N) (K : nat) (data : list N) (fuel : nat) (o : opts)
+  {A} (c : client A) : bool :=
+  prog_seek_free K data (mps_client narrow widen fuel o c []) (bsr_new K (stream_of data false)).
+
+Theorem seq_nonseekable_outside K data narrow widen fuel o ops :
+  (8 <= K)%nat -> fits_streamoff data -> bytes_ok data -> (length data < fuel)%nat ->
+  forallb (rop_ok data) ops = true ->
+  nonseek_ok narrow widen K data fuel o ops = true ->
+  mps_run_bsr narrow widen K (stream_of data false) fuel o ops = Ok (str_run narrow widen data o ops).
+Proof.
+  intros HK Hl Hb Hf Hok Hfree. unfold mps_run_bsr.
+  assert (HK0 : (0 < K)%nat) by lia.
+  destruct (new_rel K HK0 data Hl false) as [HR _].
+  pose proof (wp_seq K data HK Hl Hb narrow widen fuel o Hf ops data (suffix_data data) Hok) as H.
+  rewrite st_data in H.
+  destruct (interp_wp_nonseek K data HK0 Hl _ _ _ _ _ HR Hfree H) as [a [s' [m' [E [-> _]]]]].
+  rewrite E. reflexivity.
+Qed.
+
+Theorem client_nonseekable_outside K data narrow widen fuel o (A : Type) (c : client A) :
+  (8 <= K)%nat -> fits_streamoff data -> bytes_ok data -> (length data < fuel)%nat ->
+  client_seeks_ok narrow widen data o c data = true ->
+  nonseek_client_ok narrow widen K data fuel o c = true ->
+  mps_client_bsr narrow widen K (stream_of data false) fuel o c = Ok (str_client_run narrow widen data o c).
+Proof.
+  intros HK Hl Hb Hf Hok Hfree. unfold mps_client_bsr.
+  assert (HK0 : (0 < K)%nat) by lia.
+  destruct (new_rel K HK0 data Hl false) as [HR _].
+  pose proof (wp_client K data HK Hl Hb narrow widen fuel o Hf A c [] data (suffix_data data) Hok) as H.
+  rewrite st_data in H.
+  destruct (interp_wp_nonseek K data HK0 Hl _ _ _ _ _ HR Hfree H) as [a [s' [m' [E [-> _]]]]].
+  rewrite E. reflexivity.
+Qed.
+
+(* ---- what a refused seek does, K = 8 (since fix 24799d8 the three formerly silent cases end in InputOutputError) ---- *)
+Definition u8t : ity := mkIty false 8.
+Definition nils (n : nat) : list rop := repeat RdNil n.
+
+(* (1) a fixext4 timestamp whose header straddles the chunk boundary: 0xD6 is the last byte of chunk 1, the
+   type byte 0xFF the first of chunk 2.  The seek back of ReadExtFamilyType is refused: InputOutputError
+   (before the fix: seconds 0x00050102 instead of 5, no exception). *)
+Definition ns_ts_doc : list N := repeat 0xC0 7 ++ [0xD6; 0xFF; 0; 0; 0; 5; 1; 2].
+Lemma ns_ts_witness :
+  mps_run_bsr no_narrow id_widen 8 (stream_of ns_ts_doc false) 20 throw_all (nils 7 ++ [RdTs]) =
+    Ok (map (fun i => AOkAt VUnit (N.of_nat i)) (seq 1 7) ++ [AIOErr]) /\
+  str_run no_narrow id_widen ns_ts_doc throw_all (nils 7 ++ [RdTs]) =
+    map (fun i => AOkAt VUnit (N.of_nat i)) (seq 1 7) ++ [AOkAt (VTs 5 0) 13] /\
+  nonseek_ok no_narrow id_widen 8 ns_ts_doc 20 throw_all (nils 7 ++ [RdTs]) = false /\
+  mps_run_bsr no_narrow id_widen 8 (stream_of ns_ts_doc true) 20 throw_all (nils 7 ++ [RdTs]) =
+    Ok (str_run no_narrow id_widen ns_ts_doc throw_all (nils 7 ++ [RdTs])).
+Proof. vm_compute. repeat split; reflexivity. Qed.
+
+(* (2) ReadValueType on the same header: InputOutputError (before: the right type, reader left inside the value) *)
+Lemma ns_type_witness :
+  mps_run_bsr no_narrow id_widen 8 (stream_of ns_ts_doc false) 20 skip_all (nils 7 ++ [RdType; RdInt u8t]) =
+    Ok (map (fun i => AOkAt VUnit (N.of_nat i)) (seq 1 7) ++ [AIOErr]) /\
+  str_run no_narrow id_widen ns_ts_doc skip_all (nils 7 ++ [RdType; RdInt u8t]) =
+    map (fun i => AOkAt VUnit (N.of_nat i)) (seq 1 7) ++ [AOkAt (VType TTimestamp) 7; ANotAt 13].
+Proof. vm_compute. split; reflexivity. Qed.
+
+(* (3) EXCEPTION ON A WELL-FORMED DOCUMENT (unchanged).  SkipValue of a value that ends beyond the cached
+   window: the forward SetPosition is refused, SkipValueImpl throws "Unexpected end of input archive". *)
+Definition ns_skip_doc : list N := [0xAA; 1; 2; 3; 4; 5; 6; 7; 8; 9; 10; 0x2A].
+Lemma ns_skip_witness :
+  mps_run_bsr no_narrow id_widen 8 (stream_of ns_skip_doc false) 20 throw_all [RdSkip; RdInt u8t] = Ok [AErrOf EParse] /\
+  str_run no_narrow id_widen ns_skip_doc throw_all [RdSkip; RdInt u8t] = [AOkAt VUnit 11; AOkAt (VInt 42) 12] /\
+  (* the same value READ is fine: ReadValue(string_view) goes through ReadByChunks, no seek *)
+  mps_run_bsr no_narrow id_widen 8 (stream_of ns_skip_doc false) 20 throw_all [RdStr; RdInt u8t] =
+    Ok (str_run no_narrow id_widen ns_skip_doc throw_all [RdStr; RdInt u8t]).
+Proof. vm_compute. repeat split; reflexivity. Qed.
+
+(* (4) the reader's own SetPosition (the scopes' seek to mStartPos) back across a chunk boundary:
+   InputOutputError (before: ignored, reading went on where it was) *)
+Definition ns_rewind_doc : list N := [1; 2; 3; 4; 5; 6; 7; 8; 9; 10; 11].
+Lemma ns_rewind_witness :
+  mps_run_bsr no_narrow id_widen 8 (stream_of ns_rewind_doc false) 20 throw_all
+    (repeat (RdInt u8t) 9 ++ [RdSetPos 0; RdInt u8t]) =
+    Ok (map (fun i => AOkAt (VInt (Z.of_nat i)) (N.of_nat i)) (seq 1 9) ++ [AIOErr]) /\
+  str_run no_narrow id_widen ns_rewind_doc throw_all (repeat (RdInt u8t) 9 ++ [RdSetPos 0; RdInt u8t]) =
+    map (fun i => AOkAt (VInt (Z.of_nat i)) (N.of_nat i)) (seq 1 9) ++ [AOkAt VUnit 0; AOkAt (VInt 1) 1].
+Proof. vm_compute. split; reflexivity. Qed.
+
+Theorem seq_nonseekable_refuted :
+  ~ (forall K data narrow widen fuel o ops,
+       (8 <= K)%nat -> fits_streamoff data -> bytes_ok data -> (length data < fuel)%nat ->
+       forallb (rop_ok data) ops = true ->
+       mps_run_bsr narrow widen K (stream_of data false) fuel o ops = Ok (str_run narrow widen data o ops)).
+Proof.
+  intros H. destruct ns_skip_witness as [W1 [W2 _]].
+  specialize (H 8%nat ns_skip_doc no_narrow id_widen 20%nat throw_all [RdSkip; RdInt u8t]).
+  rewrite W1, W2 in H.
+  assert (E : Ok [AErrOf EParse] = Ok [AOkAt VUnit 11; AOkAt (VInt 42) 12]).
+  { apply H.
+    - lia.
+    - unfold fits_streamoff. cbn. lia.
+    - unfold bytes_ok, ns_skip_doc. repeat constructor.
+    - cbn. lia.
+    - reflexivity. }
+  discriminate E.
+Qed.
+
+(* a document that lies in one chunk, and one read front to back without skipping or type probing across a
+   boundary, are in the class *)
+Example ns_ok_examples :
+  nonseek_ok no_narrow id_widen 8 [0x92; 0xD6; 0xFF; 0; 0; 0; 5] 20 throw_all [RdType; RdSkip; RdSetPos 0; RdArr; RdTs] = true /\
+  nonseek_ok no_narrow id_widen 8 ns_skip_doc 20 throw_all [RdStr; RdInt u8t; RdIsEnd] = true /\
+  nonseek_ok no_narrow id_widen 8 straddle_doc 100 skip_all
+    [RdStr; RdStr; RdInt (mkIty false 16); RdArr; RdInt u8t; RdNil; RdF32] = true.
+Proof. vm_compute. repeat split; reflexivity. Qed.
+
+(* ================================================================== no silent difference on a stream without seek support *)
+
+(* Since fix 24799d8 every SetPosition the MsgPack stream reader issues is checked: a refusal ends the call
+   in an exception (SkipValueImpl: ParsingError; ReadExtFamilyType, ReadValue(CBinTimestamp), SetPosition:
+   InputOutputError).  [guarded p]: at every SetPosition of program p, the continuation for the answer
+   "refused" returns at once, with one of these two exceptions. *)
+Definition thr {A} (a : sr A) : Prop := a = QErr EParse \/ a = QIO.
+
+Fixpoint guarded {A} (p : prog (sr A)) : Prop :=
+  match p with
+  | Ret _ => True
+  | Bad => True
+  | Op op k =>
+    (forall r, guarded (k r)) /\
+    match op with
+    | OSetPos _ => exists a, k (RBool false) = Ret a /\ thr a
+    | _ => True
+    end
+  end.
+
+Lemma guarded_pbind {A B} (p : prog (sr A)) (f : sr A -> prog (sr B)) :
+  guarded p -> (forall a, guarded (f a)) -> (forall a, thr a -> exists b, f a = Ret b /\ thr b) ->
+  guarded (pbind p f).
+Proof.
+  intros Hp Hf Ht. induction p as [a| |op k IH]; cbn [pbind guarded] in *; [apply Hf | exact I|].
+  destruct Hp as [Hk Hop]. split; [intros r; apply IH; apply Hk|].
+  destruct op; try exact I. destruct Hop as [a [Ea Ta]]. rewrite Ea. cbn [pbind]. apply Ht. exact Ta.
+Qed.
+
+Lemma guarded_qbind {A B} (p : prog (sr A)) (f : A -> prog (sr B)) :
+  guarded p -> (forall a, guarded (f a)) -> guarded (qbind p f).
+Proof.
+  intros Hp Hf. unfold qbind. apply guarded_pbind; [exact Hp | |].
+  - intros [a| |e| |]; cbn [guarded]; auto.
+  - intros a [->| ->]; eexists; (split; [reflexivity|]); [left | right]; reflexivity.
+Qed.
+
+Lemma guarded_pmap {A B} (g : A -> B) (p : prog (sr A)) : guarded p -> guarded (pmap g p).
+Proof.
+  intros Hp. unfold pmap. apply guarded_pbind; [exact Hp | intros a; exact I |].
+  intros a [->| ->]; eexists; (split; [reflexivity|]); [left | right]; reflexivity.
+Qed.
+
+Lemma guarded_peek {A} (k : option N -> prog (sr A)) : (forall o, guarded (k o)) -> guarded (peek_byte k).
+Proof. intros H. split; [intros r; destruct r; cbn [guarded]; auto | exact I]. Qed.
+Lemma guarded_goto {A} (k : prog (sr A)) : guarded k -> guarded (goto_next k).
+Proof. intros H. split; [intros r; destruct r; cbn [guarded]; auto | exact I]. Qed.
+Lemma guarded_read_byte {A} (k : option N -> prog (sr A)) : (forall o, guarded (k o)) -> guarded (read_byte k).
+Proof. intros H. split; [intros r; destruct r; cbn [guarded]; auto | exact I]. Qed.
+Lemma guarded_solid {A} n (k : list N -> prog (sr A)) : (forall l, guarded (k l)) -> guarded (solid_block n k).
+Proof. intros H. split; [intros r; destruct r; cbn [guarded]; auto | exact I]. Qed.
+Lemma guarded_chunks {A} n (k : list N -> prog (sr A)) : (forall l, guarded (k l)) -> guarded (by_chunks n k).
+Proof. intros H. split; [intros r; destruct r; cbn [guarded]; auto | exact I]. Qed.
+Lemma guarded_get_pos {A} (k : N -> prog (sr A)) : (forall p, guarded (k p)) -> guarded (get_position k).
+Proof. intros H. split; [intros r; destruct r; cbn [guarded]; auto | exact I]. Qed.
+Lemma guarded_is_end {A} (k : bool -> prog (sr A)) : (forall b, guarded (k b)) -> guarded (is_end k).
+Proof. intros H. split; [intros r; destruct r; cbn [guarded]; auto | exact I]. Qed.
+Lemma guarded_set_pos {A} p (k : bool -> prog (sr A)) :
+  (forall b, guarded (k b)) -> (exists a, k false = Ret a /\ thr a) -> guarded (set_position p k).
+Proof. intros H Hf. split; [intros r; destruct r; cbn [guarded]; auto | exact Hf]. Qed.
+
+Lemma guarded_get_value k : guarded (mps_get_value k).
+Proof.
+  unfold mps_get_value. destruct (k =? 1).
+  - apply guarded_read_byte. intros o. exact I.
+  - apply guarded_solid. intros l. exact I.
+Qed.
+
+Lemma guarded_read_ext_size n : guarded (mps_read_ext_size n).
+Proof. unfold mps_read_ext_size. destruct ((n =? 1) || (n =? 2) || (n =? 4)); [apply guarded_get_value | exact I]. Qed.
+
+Lemma guarded_skip_rep step : guarded step -> forall g cnt, guarded (mps_skip_rep step g cnt).
+Proof.
+  intros Hs. induction g as [|g IH]; intros cnt; cbn [mps_skip_rep]; destruct (cnt =? 0); try exact I.
+  apply guarded_qbind; [exact Hs | intros _; apply IH].
+Qed.
+
+Lemma guarded_skip_impl : forall f, guarded (mps_skip_impl f).
+Proof.
+  induction f as [|f IH]; [exact I|]. cbn [mps_skip_impl]. apply guarded_read_byte. intros [b|]; [|exact I].
+  destruct (vtype_eqb (m_ty (byte_meta b)) TUnknown); [exact I|].
+  apply guarded_qbind.
+  - destruct (negb (m_fixed (byte_meta b) =? 0)); [exact I|].
+    destruct (negb (m_ext (byte_meta b) =? 0)); [apply guarded_read_ext_size | exact I].
+  - intros ext0. cbv zeta.
+    assert (Ch : forall ext, guarded (if ext =? 0 then Ret (QOk tt)
+                  else match m_ty (byte_meta b) with
+                       | TMap => mps_skip_rep (mps_skip_impl f) f (2 * ext)
+                       | TArr => mps_skip_rep (mps_skip_impl f) f ext
+                       | _ => Ret (QOk tt)
+                       end)).
+    { intros ext. destruct (ext =? 0); [exact I|].
+      destruct (m_ty (byte_meta b)); try exact I; apply guarded_skip_rep; exact IH. }
+    match goal with |- guarded (if ?c then _ else _) => destruct c end; [apply Ch|].
+    apply guarded_get_pos. intros p. apply guarded_set_pos.
+    + intros [|]; [apply Ch | exact I].
+    + eexists. split; [reflexivity | left; reflexivity].
+Qed.
+
+Lemma guarded_handle_mismatch {A} fuel o ty : guarded (@mps_handle_mismatch A fuel o ty).
+Proof.
+  unfold mps_handle_mismatch. match goal with |- guarded (if ?c then _ else _) => destruct c end; [exact I|].
+  apply guarded_pbind; [apply guarded_skip_impl | intros a; exact I |].
+  intros a [->| ->]; eexists; (split; [reflexivity|]); [left | right]; reflexivity.
+Qed.
+
+Lemma guarded_read_ext_family : guarded mps_read_ext_family.
+Proof.
+  unfold mps_read_ext_family. apply guarded_peek. intros [b|]; [|exact I].
+  destruct (negb (vtype_eqb (m_ty (byte_meta b)) TExt)); [exact I|].
+  apply guarded_get_pos. intros prev. apply guarded_goto. cbv zeta.
+  assert (Fin : forall off size, guarded (read_byte (fun oc =>
+            match oc with
+            | Some c => set_position prev (fun ok =>
+                          if ok then Ret (QOk (Some (mkExt (if c =? 0xFF then TTimestamp else TExt) off size c))) else Ret QIO)
+            | None => Ret (QErr EParse)
+            end))).
+  { intros off size. apply guarded_read_byte. intros [c|]; [|exact I].
+    apply guarded_set_pos; [intros [|]; exact I|]. eexists. split; [reflexivity | right; reflexivity]. }
+  destruct (negb (m_fixed (byte_meta b) =? 0)); [apply Fin|].
+  destruct (negb (m_ext (byte_meta b) =? 0)); [|exact I].
+  apply guarded_qbind; [apply guarded_read_ext_size | intros sz; apply Fin].
+Qed.
+
+Lemma guarded_read_value_type : guarded mps_read_value_type.
+Proof.
+  unfold mps_read_value_type. apply guarded_peek. intros [b|]; [|exact I].
+  destruct (vtype_eqb (m_ty (byte_meta b)) TExt); [|exact I].
+  apply guarded_qbind; [apply guarded_read_ext_family | intros x; exact I].
+Qed.
+
+Lemma guarded_mismatch_via_type {A} fuel o : guarded (@mps_mismatch_via_type A fuel o).
+Proof.
+  unfold mps_mismatch_via_type. apply guarded_pbind; [apply guarded_read_value_type | |].
+  - intros [t| |e| |]; try exact I. apply guarded_handle_mismatch.
+  - intros a [->| ->]; eexists; (split; [reflexivity|]); [left | right]; reflexivity.
+Qed.
+
+Ltac gd_leaf :=
+  first [ exact I
+        | apply guarded_handle_mismatch
+        | apply guarded_mismatch_via_type
+        | apply guarded_get_value
+        | apply guarded_goto; first [exact I | apply guarded_get_value
+                                    | apply guarded_qbind; [apply guarded_get_value | intros ?; exact I]] ].
+
+Lemma guarded_read_int fuel o t : guarded (mps_read_int fuel o t).
+Proof.
+  unfold mps_read_int. apply guarded_peek. intros [b|]; [|exact I]. cbv zeta.
+  repeat match goal with |- guarded (if ?c then _ else _) => destruct c end; gd_leaf.
+Qed.
+
+Lemma guarded_read_nil fuel o : guarded (mps_read_nil fuel o).
+Proof.
+  unfold mps_read_nil. apply guarded_peek. intros [b|]; [|exact I].
+  repeat match goal with |- guarded (if ?c then _ else _) => destruct c end; gd_leaf.
+Qed.
+
+Lemma guarded_read_f32 narrow fuel o : guarded (mps_read_f32 narrow fuel o).
+Proof.
+  unfold mps_read_f32. apply guarded_peek. intros [b|]; [|exact I].
+  repeat match goal with |- guarded (if ?c then _ else _) => destruct c end; gd_leaf.
+Qed.
+
+Lemma guarded_read_f64 widen fuel o : guarded (mps_read_f64 widen fuel o).
+Proof.
+  unfold mps_read_f64. apply guarded_peek. intros [b|]; [|exact I].
+  repeat match goal with |- guarded (if ?c then _ else _) => destruct c end; gd_leaf.
+Qed.
+
+Lemma guarded_read_chunks : forall fuel n acc, guarded (mps_read_chunks fuel n acc).
+Proof.
+  induction fuel as [|fuel IH]; intros n acc; cbn [mps_read_chunks]; destruct (n =? 0); try exact I.
+  apply guarded_chunks. intros [|x l]; [exact I | apply IH].
+Qed.
+
+Lemma guarded_read_str fuel o : guarded (mps_read_str fuel o).
+Proof.
+  unfold mps_read_str. apply guarded_peek. intros [b|]; [|exact I]. cbv zeta.
+  repeat match goal with |- guarded (if ?c then _ else _) => destruct c end.
+  all: try apply guarded_mismatch_via_type.
+  all: apply guarded_goto; apply guarded_qbind; try (intros n; apply guarded_read_chunks); first [exact I | apply guarded_get_value].
+Qed.
+
+Lemma guarded_read_size fuel o a b c : guarded (mps_read_size fuel o a b c).
+Proof.
+  unfold mps_read_size. apply guarded_peek. intros [x|]; [|exact I].
+  repeat match goal with |- guarded (if ?c then _ else _) => destruct c end; gd_leaf.
+Qed.
+
+Lemma guarded_read_bin_size fuel o : guarded (mps_read_bin_size fuel o).
+Proof.
+  unfold mps_read_bin_size. apply guarded_peek. intros [x|]; [|exact I].
+  repeat match goal with |- guarded (if ?c then _ else _) => destruct c end; gd_leaf.
+Qed.
+
+Lemma guarded_read_binary : guarded mps_read_binary.
+Proof. unfold mps_read_binary. apply guarded_read_byte. intros o. exact I. Qed.
+
+Lemma guarded_read_ts fuel o : guarded (mps_read_ts fuel o).
+Proof.
+  unfold mps_read_ts. apply guarded_pbind; [apply guarded_read_ext_family | |].
+  - intros [[x|]| |e| |]; try exact I; try apply guarded_mismatch_via_type.
+    destruct (x_code x =? 0xFF); [|apply guarded_mismatch_via_type].
+    apply guarded_get_pos. intros p. apply guarded_set_pos.
+    + intros [|]; cbn [negb]; [|exact I].
+      repeat match goal with |- guarded (if ?c then _ else _) => destruct c end; try exact I.
+      * apply guarded_qbind; [apply guarded_get_value | intros v; exact I].
+      * apply guarded_qbind; [apply guarded_get_value | intros v; exact I].
+      * apply guarded_qbind; [apply guarded_get_value|]. intros sec.
+        apply guarded_qbind; [apply guarded_get_value | intros v; exact I].
+    + eexists. split; [reflexivity | right; reflexivity].
+  - intros a [->| ->]; eexists; (split; [reflexivity|]); [left | right]; reflexivity.
+Qed.
+
+Lemma guarded_op narrow widen fuel o op : guarded (mps_op narrow widen fuel o op).
+Proof.
+  destruct op; cbn [mps_op]; try apply guarded_pmap.
+  - apply guarded_read_int.
+  - apply guarded_read_nil.
+  - apply guarded_read_f32.
+  - apply guarded_read_f64.
+  - apply guarded_read_str.
+  - apply guarded_read_size.
+  - apply guarded_read_size.
+  - apply guarded_read_bin_size.
+  - apply guarded_read_binary.
+  - apply guarded_read_ts.
+  - apply guarded_read_value_type.
+  - apply guarded_skip_impl.
+  - apply guarded_set_pos; [intros b; exact I|]. eexists. split; [reflexivity | right; reflexivity].
+  - apply guarded_is_end. intros b. exact I.
+Qed.
+
+(* a SetPosition that is not local is refused on a stream without seek support *)
+Lemma bsr_set_position_nonlocal K data s q :
+  is_seekable (b_is s) = false -> setpos_local data s q = false -> fst (bsr_set_position K s q) = false.
+Proof.
+  intros Hs Hl. unfold setpos_local, in_window in Hl.
+  apply orb_false_iff in Hl. destruct Hl as [Hl H3]. apply orb_false_iff in Hl. destruct Hl as [H1 H2].
+  unfold bsr_set_position. rewrite H1, H2.
+  unfold is_seekg, is_clear, is_sentry, is_good. cbn [is_eof is_fail is_seekable negb andb fst snd].
+  rewrite Hs. reflexivity.
+Qed.
+
+Lemma interp_pbind {S A B} (step : S -> bop -> outcome (bres * S)) (p : prog A) (f : A -> prog B) : forall s,
+  interp step (pbind p f) s = match interp step p s with Ok (a, s1) => interp step (f a) s1 | Fault => Fault end.
+Proof.
+  induction p as [a| |op k IH]; intros s; cbn [pbind interp]; try reflexivity.
+  destruct (step s op) as [[r s']|]; [apply IH | reflexivity].
+Qed.
+
+(* run a guarded program on the chunked reader over a non-seekable stream: either every answer was one
+   the reference accepts (so a wp statement applies), or a SetPosition was refused and the program
+   returned one of the two exceptions *)
+Lemma interp_guarded K data : (0 < K)%nat -> fits_streamoff data ->
+  forall (A : Type) (p : prog (sr A)) s m Q,
+  Rel K data s m -> is_seekable (b_is s) = false -> guarded p -> wp K data p m Q ->
+  exists a s', interp (bsr_step K) p s = Ok (a, s') /\
+    ((exists m', Q a m' /\ Rel K data s' m' /\ is_seekable (b_is s') = false) \/ thr a).
+Proof.
+  intros HK Hl A. induction p as [a| |op k IH]; intros s m Q HR Hs Hg H; cbn [wp interp guarded] in *.
+  - exists a, s. split; [reflexivity|]. left. exists m. auto.
+  - contradiction.
+  - destruct H as [Hw Hk]. destruct Hg as [Gk Gop].
+    assert (Local : (m_failed m = false -> is_seekable (b_is s) = true \/ op_local data s op = true) ->
+              exists a s', (match bsr_step K s op with Ok (r, s'0) => interp (bsr_step K) (k r) s'0 | Fault => Fault end) = Ok (a, s') /\
+                ((exists m', Q a m' /\ Rel K data s' m' /\ is_seekable (b_is s') = false) \/ thr a)).
+    { intros Hint. destruct (step_refines K HK data Hl s m op HR Hw Hint) as [r [s' [m' [E1 [E2 [R' Sk]]]]]].
+      rewrite E1. apply (IH r s' m' Q R'); [congruence | apply Gk | apply Hk; exact E2]. }
+    destruct (m_failed m) eqn:F; [apply Local; intros; discriminate|].
+    destruct (op_local data s op) eqn:Eloc; [apply Local; intros _; right; reflexivity|].
+    destruct op; cbn [op_local] in Eloc; try discriminate Eloc.
+    destruct Gop as [a [Ea Ta]].
+    cbn [bsr_step]. pose proof (bsr_set_position_nonlocal K data s p Hs Eloc) as Hb.
+    destruct (bsr_set_position K s p) as [b s1]. cbn [fst] in Hb. subst b.
+    rewrite Ea. cbn [interp]. exists a, s1. split; [reflexivity | right; exact Ta].
+Qed.
+
+(* ---- sequences and clients ---- *)
+Definition exc_ans (a : ans) : Prop := a = AErrOf EParse \/ a = AIOErr.
+
+(* the stream-side answers are the string-side answers, or agree with them up to a point and end there in
+   ParsingError / InputOutputError *)
+Definition same_or_throws (stream str : list ans) : Prop :=
+  stream = str \/ exists pre rest e, str = pre ++ rest /\ stream = pre ++ [e] /\ exc_ans e.
+
+Lemma same_or_throws_cons a l1 l2 : same_or_throws l1 l2 -> same_or_throws (a :: l1) (a :: l2).
+Proof.
+  intros [->|[pre [rest [e [-> [-> He]]]]]]; [left; reflexivity|].
+  right. exists (a :: pre), rest, e. auto.
+Qed.
+
+Lemma same_or_throws_first e str : exc_ans e -> same_or_throws [e] str.
+Proof. intros He. right. exists [], str, e. auto. Qed.
+
+Section NoSilent.
+  Variable K : nat.
+  Variable data : list N.
+  Hypothesis HK : (8 <= K)%nat.
+  Hypothesis Hl : fits_streamoff data.
+  Hypothesis Hb : bytes_ok data.
+  Variable narrow : N -> option N.
+  Variable widen : N -> N.
+  Variable fuel : nat.
+  Variable o : opts.
+  Hypothesis Hf : (length data < fuel)%nat.
+
+  Lemma HK0 : (0 < K)%nat.
+  Proof. lia. Qed.
+
+  (* one call *)
+  Lemma op_nonseek op d s : Suffix data d -> rop_ok data op = true ->
+    Rel K data s (st data d) -> is_seekable (b_is s) = false ->
+    exists a s', interp (bsr_step K) (mps_op narrow widen fuel o op) s = Ok (a, s') /\
+      ((exists m', post data (str_op narrow widen data o op d) a m' /\ Rel K data s' m' /\ is_seekable (b_is s') = false)
+       \/ thr a).
+  Proof.
+    intros HS Hok HR Hs. pose proof (suffix_len K data HK Hl d HS) as Hlen.
+    apply (interp_guarded K data HK0 Hl _ _ s (st data d)); try assumption.
+    - apply guarded_op.
+    - apply wp_op; try assumption. lia.
+  Qed.
+
+  (* GetPosition() after a call that returned *)
+  Lemma getpos_nonseek {A} (k : N -> prog A) r s : Rel K data s (st data r) ->
+    interp (bsr_step K) (get_position k) s = interp (bsr_step K) (k (N.of_nat (length data - length r))) s.
+  Proof.
+    intros [_ HR]. destruct (HR eq_refl) as [_ [_ [_ P]]]. cbn [st m_pos] in P.
+    cbn [get_position interp bsr_step]. rewrite <- P. reflexivity.
+  Qed.
+
+  Theorem seq_nonseek_steps : forall ops d s, Suffix data d -> forallb (rop_ok data) ops = true ->
+    Rel K data s (st data d) -> is_seekable (b_is s) = false ->
+    exists l s', interp (bsr_step K) (mps_seq narrow widen fuel o ops) s = Ok (l, s') /\
+                 same_or_throws l (str_seq narrow widen data o ops d).
+  Proof.
+    induction ops as [|op tl IH]; intros d s HS Hok HR Hs.
+    { exists [], s. split; [reflexivity | left; reflexivity]. }
+    cbn [forallb] in Hok. apply andb_true_iff in Hok. destruct Hok as [Hok1 Hok2].
+    cbn [mps_seq str_seq]. rewrite interp_pbind.
+    destruct (op_nonseek op d s HS Hok1 HR Hs) as [a [s1 [E [[m' [Hp [R1 S1]]]|Ht]]]]; rewrite E.
+    - destruct (str_op narrow widen data o op d) as [v r|r|e|]; cbn [post] in Hp.
+      + destruct Hp as [-> [-> HSr]]. rewrite (getpos_nonseek _ r s1 R1). rewrite interp_pbind.
+        destruct (IH r s1 HSr Hok2 R1 S1) as [l [s2 [E2 H2]]]. rewrite E2. cbn [interp].
+        eexists _, s2. split; [reflexivity|]. apply same_or_throws_cons. exact H2.
+      + destruct Hp as [-> [-> HSr]]. rewrite (getpos_nonseek _ r s1 R1). rewrite interp_pbind.
+        destruct (IH r s1 HSr Hok2 R1 S1) as [l [s2 [E2 H2]]]. rewrite E2. cbn [interp].
+        eexists _, s2. split; [reflexivity|]. apply same_or_throws_cons. exact H2.
+      + subst a. cbn [interp]. eexists _, s1. split; [reflexivity | left; reflexivity].
+      + subst a. cbn [interp]. eexists _, s1. split; [reflexivity | left; reflexivity].
+    - destruct Ht as [->| ->]; cbn [interp]; eexists _, s1; (split; [reflexivity|]); apply same_or_throws_first;
+        [left | right]; reflexivity.
+  Qed.
+
+  (* clients: the transcript is the string-side transcript, or a prefix of it followed by the call that threw *)
+  Definition client_same_or_throws {A} (stream str : transcript * option A) : Prop :=
+    stream = str \/
+    exists pre rest op e, fst str = pre ++ rest /\ stream = (pre ++ [(op, e)], None) /\ exc_ans e.
+
+  Lemma str_client_extends {A} : forall (c : client A) t d,
+    exists x, fst (str_client narrow widen data o c t d) = t ++ x.
+  Proof.
+    induction c as [a|op k IH]; intros t d; cbn [str_client].
+    - exists []. cbn. rewrite app_nil_r. reflexivity.
+    - destruct (str_op narrow widen data o op d) as [v r|r|e|]; cbv zeta.
+      + destruct (IH (AOkAt v (N.of_nat (length data - length r))) (t ++ [(op, AOkAt v (N.of_nat (length data - length r)))]) r) as [x E].
+        rewrite E. eexists. rewrite <- app_assoc. reflexivity.
+      + destruct (IH (ANotAt (N.of_nat (length data - length r))) (t ++ [(op, ANotAt (N.of_nat (length data - length r)))]) r) as [x E].
+        rewrite E. eexists. rewrite <- app_assoc. reflexivity.
+      + eexists. reflexivity.
+      + eexists. reflexivity.
+  Qed.
+
+  Theorem client_nonseek_steps {A} : forall (c : client A) t d s, Suffix data d ->
+    client_seeks_ok narrow widen data o c d = true ->
+    Rel K data s (st data d) -> is_seekable (b_is s) = false ->
+    exists res s', interp (bsr_step K) (mps_client narrow widen fuel o c t) s = Ok (res, s') /\
+                   client_same_or_throws res (str_client narrow widen data o c t d).
+  Proof.
+    induction c as [a|op k IH]; intros t d s HS Hok HR Hs.
+    { eexists _, s. split; [reflexivity | left; reflexivity]. }
+    cbn [client_seeks_ok] in Hok. apply andb_true_iff in Hok. destruct Hok as [Hok1 Hok2].
+    cbn [mps_client]. rewrite interp_pbind.
+    assert (Throw : forall e, exc_ans e ->
+              client_same_or_throws (A := A) (t ++ [(op, e)], None) (str_client narrow widen data o (CCall op k) t d)).
+    { intros e He. right. destruct (str_client_extends (CCall op k) t d) as [x Ex].
+      exists t, x, op, e. auto. }
+    destruct (op_nonseek op d s HS Hok1 HR Hs) as [a [s1 [E [[m' [Hp [R1 S1]]]|Ht]]]]; rewrite E.
+    - cbn [str_client]. revert Hok2 Hp. destruct (str_op narrow widen data o op d) as [v r|r|e|]; intros Hok2 Hp; cbn [post] in Hp.
+      + destruct Hp as [-> [-> HSr]]. rewrite (getpos_nonseek _ r s1 R1). cbv zeta. apply IH; assumption.
+      + destruct Hp as [-> [-> HSr]]. rewrite (getpos_nonseek _ r s1 R1). cbv zeta. apply IH; assumption.
+      + subst a. cbn [interp]. eexists _, s1. split; [reflexivity | left; reflexivity].
+      + subst a. cbn [interp]. eexists _, s1. split; [reflexivity | left; reflexivity].
+    - destruct Ht as [->| ->]; cbn [interp]; eexists _, s1; (split; [reflexivity|]); apply Throw;
+        [left | right]; reflexivity.
+  Qed.
+End NoSilent.
+
+(* C10 on a stream without seek support: NO SILENT DIFFERENCE.  For every chunk size K >= 8, every data and
+   every list of reads, CMsgPackStreamReader over the chunked reader on a non-seekable stream gives the
+   answers of CMsgPackStringReader, or gives them up to some call and ends there in ParsingError or
+   InputOutputError — never a different value, never a different position. *)
+Theorem seq_nonseekable_no_silent K data narrow widen fuel o ops :
+  (8 <= K)%nat -> fits_streamoff data -> bytes_ok data -> (length data < fuel)%nat ->
+  forallb (rop_ok data) ops = true ->
+  exists l, mps_run_bsr narrow widen K (stream_of data false) fuel o ops = Ok l /\
+            same_or_throws l (str_run narrow widen data o ops).
+Proof.
+  intros HK Hl Hb Hf Hok. unfold mps_run_bsr, str_run.
+  assert (HK0' : (0 < K)%nat) by lia.
+  destruct (new_rel K HK0' data Hl false) as [HR Hs]. rewrite <- (st_data data) in HR.
+  destruct (seq_nonseek_steps K data HK Hl Hb narrow widen fuel o Hf ops data _ (suffix_data data) Hok HR Hs) as [l [s' [E H]]].
+  exists l. rewrite E. split; [reflexivity | exact H].
+Qed.
+
+Theorem client_nonseekable_no_silent K data narrow widen fuel o (A : Type) (c : client A) :
+  (8 <= K)%nat -> fits_streamoff data -> bytes_ok data -> (length data < fuel)%nat ->
+  client_seeks_ok narrow widen data o c data = true ->
+  exists res, mps_client_bsr narrow widen K (stream_of data false) fuel o c = Ok res /\
+              client_same_or_throws res (str_client_run narrow widen data o c).
+Proof.
+  intros HK Hl Hb Hf Hok. unfold mps_client_bsr, str_client_run.
+  assert (HK0' : (0 < K)%nat) by lia.
+  destruct (new_rel K HK0' data Hl false) as [HR Hs]. rewrite <- (st_data data) in HR.
+  destruct (client_nonseek_steps K data HK Hl Hb narrow widen fuel o Hf c [] data _ (suffix_data data) Hok HR Hs) as [res [s' [E H]]].
+  exists res. rewrite E. split; [reflexivity | exact H].
+Qed.
